@@ -106,9 +106,11 @@ def arena_variants(tier, rng, count):
         j = 0
         for _ in range(rng.randrange(2, 9)):
             r = rng.random()
-            if r < 0.55:
+            if r < 0.50:
                 L = rng.choice([0, 1, c, c + 1, 2 * c, 2 * c + 1, 4 * c + 1, rng.randrange(0, 3 * c + 3)])
                 ops.append(f"I {rng.randrange(slots)} {hx(sized(j, L))}"); j += 1
+            elif r < 0.56:
+                ops.append(f"{rng.choice(['IS', 'ISP', 'ISP'])} {rng.randrange(slots)} {rng.randrange(3)}")
             elif r < 0.7:
                 ops.append(f"LIM {rng.randrange(slots)} {lim(rng.choice([None, rng.randrange(0, 6 * c + 8)]))}")
             elif r < 0.8 and kind == "NR":
@@ -118,9 +120,11 @@ def arena_variants(tier, rng, count):
             elif r < 0.94 and kind == "NR" and slots >= 2:
                 a, b = rng.sample(range(slots), 2)
                 ops.append(f"CF {a} {b}")
+            elif r < 0.97:
+                ops.append(f"{rng.choice(['IS', 'ISP'])} {rng.randrange(slots)} {rng.randrange(3)}")
             else:
                 ops.append(f"CUR {rng.randrange(slots)}")
-        yield case(f"av{n}", cfg(H=rng.choice(HASHERS)), ops)
+        yield case(f"av{n}", cfg(H=rng.choice(HASHERS), V=rng.choice(ROUTES), P=[hx(b"a static string of thirty-five bytes"), hx(b"st"), "@0.0.9"]), ops)
 
 # ---------------------------------------------------------------- stream: random histories
 def random_history(rng, cid, maxops, K=None, H=None, V=None):
